@@ -553,9 +553,9 @@ def getinputmode(data: bytes) -> int:
             in (
                 b"\x06\x01",
                 b"\x06\x02",
-                b"\x06\x03",
+                b"\x06\x00",
                 b"\x06\x31",
-            )  # CFG-INF, CFG-MSG, CFG-PRT, CFG-TP5
+            )  # CFG-MSG, CFG-INF, CFG-PRT, CFG-TP5
             and len(data) <= 10
         )
     ):
